@@ -139,6 +139,20 @@ func init() {
 		Judged: []string{"adv garbage", "adv hugeView", "adv mutate", "adv wrapLen", "delivered adversarial", "C05 tails judged", "C05 tails with commit", "C12 malformed messages dropped after a parser panic", "C12 storage probes after a recovered panic"},
 		Extra: func(run *harness.Run) ([]harness.Finding, map[string]interface{}, []string) {
 			fs, ev, inc := rtPart(run, "hostile", 32, 1200, map[string]int{"C12 hostile inputs": 2000, "C12 victims judged for progress": 16})
+			// differential script: valid traffic with malformed messages inserted, also in front of the cached valid ones
+			cviol, cst, ctrace := sim.ScriptMalformedAmongValid(run.Seed*15485863+12, run.Pick(300, 8000))
+			for i, v := range cviol {
+				if i >= 3 {
+					break
+				}
+				path := harness.ReplayPath("C12", fmt.Sprintf("malformed-among-valid-%d", i+1))
+				harness.WriteJSON(path, map[string]interface{}{"property": "C12", "rule": v.Rule, "detail": v.Detail, "trace": ctrace})
+				fs = append(fs, harness.Finding{Prop: "C12", Rule: v.Rule, Detail: v.Detail, Replay: path})
+			}
+			ev["malformed_among_valid_script"] = cst
+			if len(cviol) == 0 && (cst.CommitsInControl < cst.Worlds || cst.MalformedAheadOfValidCache == 0) {
+				inc = append(inc, "malformed-among-valid script: the control copy did not commit both heights in every world")
+			}
 			fs2, ev2, inc2 := rtPart(run, "flood", 4, 60, map[string]int{"C12 floods judged": 4})
 			ev["rt_flood"] = ev2
 			// node syncs with the extreme height 2^64-1 through the public API, then a sync that must still take effect
